@@ -1702,4 +1702,127 @@ theorem tiles_mem_bounds : ∀ (ts : List Tok) (a b : Nat) (t : Tok), tiles ts a
     · subst hm; omega
     · have := ih _ _ t h3 hm; omega
 
+/-! ## The lexer post-pass and trivia (lexer level of the trivia-insertion clause) -/
+
+theorem postpass_barrier (L : Lang) (src : List Nat) (t : Tok) (b : List Tok)
+    (hi : t.kind ≠ L.int) (hd : t.kind ≠ L.dot) :
+    ∀ a : List Tok, postpass L src (a ++ t :: b) = postpass L src a ++ t :: postpass L src b := by
+  intro a
+  fun_induction postpass L src a with
+  | case1 => simp [postpass, hi]
+  | case2 t0 hc intTok => simp [postpass, hc, hd, intTok]
+  | case3 t0 hc intTok nx rest' hd' ih => simp [postpass, hc, hd', ih, intTok]
+  | case4 t0 hc intTok nx rest' hd' ih => simp [postpass, hc, hd', ih, intTok]
+  | case5 t0 rest hc ih => simp [postpass, hc, ih]
+
+theorem splitCond_shift (L : Lang) (src src' : List Nat) (d : Nat) (t : Tok)
+    (h : endsWithDot src' (shiftTok d t) = endsWithDot src t) :
+    ((shiftTok d t).kind = L.int ∧ endsWithDot src' (shiftTok d t) = true ∧ (shiftTok d t).hi > (shiftTok d t).lo + 1) ↔
+      (t.kind = L.int ∧ endsWithDot src t = true ∧ t.hi > t.lo + 1) := by
+  rw [h]
+  simp only [shiftTok]
+  constructor <;> rintro ⟨a, b, c⟩ <;> exact ⟨a, b, by omega⟩
+
+theorem postpass_shift (L : Lang) (src src' : List Nat) (d : Nat) :
+    ∀ raw : List Tok, (∀ t ∈ raw, endsWithDot src' (shiftTok d t) = endsWithDot src t) →
+      postpass L src' (raw.map (shiftTok d)) = (postpass L src raw).map (shiftTok d) := by
+  intro raw
+  fun_induction postpass L src raw with
+  | case1 => intro _; simp [postpass]
+  | case2 t hc intTok =>
+    intro h
+    have hc' := (splitCond_shift L src src' d t (h t (by simp))).mpr hc
+    have h1 : t.hi + d - 1 = t.hi - 1 + d := by omega
+    simp only [List.map, postpass, hc', and_self, if_true]
+    simp [shiftTok, intTok, h1]
+  | case3 t hc intTok nx rest' hd ih =>
+    intro h
+    have hc' := (splitCond_shift L src src' d t (h t (by simp))).mpr hc
+    have h1 : t.hi + d - 1 = t.hi - 1 + d := by omega
+    have ih' := ih (fun x hx => h x (by simp [hx]))
+    have hd' : (shiftTok d nx).kind = L.dot ∧ (shiftTok d nx).lo = (shiftTok d t).hi := by
+      simp only [shiftTok]; exact ⟨hd.1, by omega⟩
+    simp only [List.map, postpass, hc', hd', and_self, if_true, ih']
+    simp [shiftTok, intTok, h1]
+  | case4 t hc intTok nx rest' hd ih =>
+    intro h
+    have hc' := (splitCond_shift L src src' d t (h t (by simp))).mpr hc
+    have h1 : t.hi + d - 1 = t.hi - 1 + d := by omega
+    have ih' := ih (fun x hx => h x (by simp [hx]))
+    have hd' : ¬ ((shiftTok d nx).kind = L.dot ∧ (shiftTok d nx).lo = (shiftTok d t).hi) := by
+      simp only [shiftTok]; intro ⟨a, b⟩; exact hd ⟨a, by omega⟩
+    simp only [List.map, postpass, hc', hd', and_self, if_true, if_false, ih']
+    simp [shiftTok, intTok, h1]
+  | case5 t rest hc ih =>
+    intro h
+    have hc' := (not_congr (splitCond_shift L src src' d t (h t (by simp)))).mpr hc
+    have ih' := ih (fun x hx => h x (by simp [hx]))
+    simp only [List.map, postpass, hc', if_false, ih']
+
+theorem endsWithDot_left (p w q : List Nat) (t : Tok) (h : t.hi ≤ p.length) :
+    endsWithDot (p ++ w ++ q) t = endsWithDot (p ++ q) t := by
+  unfold endsWithDot
+  by_cases hlt : t.lo < t.hi
+  · have h1 : t.hi - 1 < p.length := by omega
+    simp [hlt, List.append_assoc, List.getElem?_append_left h1]
+  · simp [hlt]
+
+theorem endsWithDot_right (p w q : List Nat) (t : Tok) (h : p.length ≤ t.lo) :
+    endsWithDot (p ++ w ++ q) (shiftTok w.length t) = endsWithDot (p ++ q) t := by
+  unfold endsWithDot
+  by_cases hlt : t.lo < t.hi
+  · have h1 : p.length ≤ t.hi - 1 := by omega
+    have h2 : (p ++ w).length ≤ t.hi + w.length - 1 := by simp; omega
+    have h3 : t.hi + w.length - 1 - (p ++ w).length = t.hi - 1 - p.length := by simp; omega
+    have e1 : (p ++ w ++ q)[t.hi + w.length - 1]? = q[t.hi - 1 - p.length]? := by
+      rw [List.getElem?_append_right h2, h3]
+    have e2 : (p ++ q)[t.hi - 1]? = q[t.hi - 1 - p.length]? := List.getElem?_append_right h1
+    have hlt' : t.lo + w.length < t.hi + w.length := by omega
+    simp only [shiftTok, hlt, hlt', e1, e2]
+  · have hlt' : ¬ (t.lo + w.length < t.hi + w.length) := by omega
+    simp [shiftTok, hlt, hlt']
+
+theorem shiftTok_zero (t : Tok) : shiftTok 0 t = t := by cases t; simp [shiftTok]
+
+theorem postpass_insert (L : Lang) (p w q : List Nat) (a b : List Tok) (tr : Tok)
+    (ha : ∀ t ∈ a, t.hi ≤ p.length) (hb : ∀ t ∈ b, p.length ≤ t.lo)
+    (hk1 : tr.kind ≠ L.int) (hk2 : tr.kind ≠ L.dot) :
+    postpass L (p ++ w ++ q) (a ++ tr :: b.map (shiftTok w.length)) =
+      postpass L (p ++ q) a ++ tr :: (postpass L (p ++ q) b).map (shiftTok w.length) := by
+  rw [postpass_barrier L _ tr _ hk1 hk2]
+  have e1 := postpass_shift L (p ++ q) (p ++ w ++ q) 0 a (fun t ht => by
+    rw [shiftTok_zero]; exact endsWithDot_left p w q t (ha t ht))
+  have e2 := postpass_shift L (p ++ q) (p ++ w ++ q) w.length b (fun t ht => endsWithDot_right p w q t (hb t ht))
+  have hz : ∀ l : List Tok, l.map (shiftTok 0) = l := by
+    intro l; induction l with
+    | nil => rfl
+    | cons x xs ih => simp [shiftTok_zero, ih]
+  rw [hz, hz] at e1
+  rw [e1, e2]
+
+theorem sigKinds_append (L : Lang) (x y : List Tok) : sigKinds L (x ++ y) = sigKinds L x ++ sigKinds L y := by
+  simp [sigKinds]
+
+theorem sigKinds_shift (L : Lang) (d : Nat) (ts : List Tok) : sigKinds L (ts.map (shiftTok d)) = sigKinds L ts := by
+  induction ts with
+  | nil => rfl
+  | cons t ts ih =>
+    simp only [sigKinds, List.map, List.filter] at ih ⊢
+    have : (shiftTok d t).kind = t.kind := rfl
+    rw [this]
+    cases h : (!L.isTrivia t.kind) <;> simp [ih, this]
+
+theorem sigKinds_insert (L : Lang) (p w q : List Nat) (a b : List Tok) (tr : Tok)
+    (ha : ∀ t ∈ a, t.hi ≤ p.length) (hb : ∀ t ∈ b, p.length ≤ t.lo)
+    (hk1 : tr.kind ≠ L.int) (hk2 : tr.kind ≠ L.dot) (htr : L.isTrivia tr.kind = true)
+    (hsplit : postpass L (p ++ q) (a ++ b) = postpass L (p ++ q) a ++ postpass L (p ++ q) b) :
+    sigKinds L (postpass L (p ++ w ++ q) (a ++ tr :: b.map (shiftTok w.length))) =
+      sigKinds L (postpass L (p ++ q) (a ++ b)) := by
+  rw [postpass_insert L p w q a b tr ha hb hk1 hk2, hsplit, sigKinds_append, sigKinds_append]
+  congr 1
+  have : sigKinds L (tr :: (postpass L (p ++ q) b).map (shiftTok w.length)) =
+      sigKinds L ((postpass L (p ++ q) b).map (shiftTok w.length)) := by
+    simp [sigKinds, List.filter, htr]
+  rw [this, sigKinds_shift]
+
 end TrustVerif.C12
